@@ -26,7 +26,7 @@ EXHAUSTIVE = {"quick": False, "thorough": False}
 def _lmax(n, tier):
     if tier == "quick":
         return 4 if n <= 4 else 3 if n <= 8 else 2
-    return 6 if n <= 4 else 5 if n <= 8 else 4 if n <= 13 else 3
+    return 7 if n <= 4 else 5 if n <= 8 else 4 if n <= 13 else 3
 
 
 def plan(tier, seed):
